@@ -218,6 +218,10 @@ class Engine(ExprMixin, StmtMixin, CallMixin, PrimMixin, NumpyMixin, BOMixin):
             for s2, v in self.instantiate(st.fork(), ty[4:-1], name, fresh):
                 s2.path.append(name + "!=None")
                 yield s2, v
+        elif ty == "bodtype":
+            from .bomodel import BODType
+            r = self.fresh_bo(st, "bo", name, fresh=fresh)
+            yield st, BODType(r, None, st.get(r).order)
         elif ty == "bo" or ty.startswith("bo:"):
             yield st, self.fresh_bo(st, ty, name, fresh=fresh)
         elif ty == "sarr":
